@@ -132,7 +132,7 @@ def judge_finite(ctx, cls, desc, p_ref, lp, pr, ent, mode_idx, smp_idx, ss_idx, 
         if out:
             if int8_wide:
                 bad(wrapkey, {"classes": wrap_info["classes"], "outside": out, "of": len(idx),
-                              "example": np.asarray(wrap_info["raw"]).ravel()[:8]})
+                              "example": (lambda r: r[(r < 0) | (r >= wrap_info["classes"])][:8])(np.asarray(wrap_info["raw"]).ravel())})
             else:
                 bad(f"{kname}-outside-support", {"outside": out, "of": len(idx)})
             continue  # the draws are not elements of the support: nothing further to compare
